@@ -8,7 +8,7 @@ MANIFEST = {
     "text": "Coq theorems: C03_cover (for ALL local transactions = lists of row-level update/delete/insert statements over the C18 kernel: "
             "every row whose content differs across the local commit is named by the lock keys of one of its statements), C03_canonical (key "
             "text is a function of table and key values whatever the image's column order / repeated key columns; the shipped pre-repair "
-            "builder is refuted: C03_canonical_refuted_legacy), C03_parse (coordinator's parse of the joined text = the keys, for values "
+            "builder is refuted: C03_canonical_refuted_legacy; C03_canonical_sfu: the locking read's own builder gives the same text), C03_parse (coordinator's parse of the joined text = the keys, for values "
             "without , _ ; :  -- integers always; C03_parse_refuted: ambiguity witnesses with separators), C03_sfu (rows handed out only after a "
             "lockable answer covering exactly their keys; conflict => Err and ROLLBACK TO), C03_isolation (any schedule of local commits of any "
             "number of global transactions, coordinator grants a key to one xid at a time, keys cover writes => written row sets disjoint; "
@@ -31,7 +31,8 @@ From Coq.Strings Require Import Byte.
 From SeataV Require Import Base.Bytes At.Db At.Image At.LockKey At.Lock At.LockCases.
 Import ListNotations. Open Scope nat_scope.
 """
-ERR = {35: "the register text of a multi-statement local transaction is not the set of the statements' key texts",
+ERR = {36: "lock key text of the locking read's own builder differs from the model's text for the same keys",
+       35: "the register text of a multi-statement local transaction is not the set of the statements' key texts",
        31: "lock key text sent to the coordinator differs from the model's text of the recorded image",
        32: "a row changed by the local transaction is not named by the lock keys sent (cover)",
        33: "select-for-update journal (savepoint, key query, business query, lock query, rollback-to) differs from the model's",
@@ -54,7 +55,7 @@ def parse_key_text(text, kinds):
     rows = text.rstrip(";").split(":", 1)[1]
     for r in [x for x in rows.split(",") if x != ""]:
         vals = r.split("_")
-        out.append(tuple(("i", int(v)) if k == "int" and v.lstrip("-").isdigit() else ("s", v.encode().hex()) for v, k in zip(vals, kinds)))
+        out.append(tuple(typed(("s", v.encode().hex()), k) for v, k in zip(vals, kinds)))
     return out
 
 
@@ -63,7 +64,7 @@ def analyze_dml(case, sm):
     pk, table = meta["pk"], meta["table"]
     names = [c["name"] for c in meta["cols"]]
     st = U.step_at(tr, sm["path"])
-    res = {"oracle": [], "lcase": None, "pred": sm.get("pred") or "", "kind": sm["kind"], "class": st["class"], "sent": 0}
+    res = {"oracle": [], "lcase": None, "pred": sm.get("pred") or "", "kind": sm["kind"], "class": st["class"], "sent": 0, "texts": []}
     d0 = U.dump_table(U.step_at(tr, sm["dump_pre"]), table)
     d1 = U.dump_table(U.step_at(tr, sm["dump_post"]), table)
     k0, k1 = dict(U.keyed(d0, pk)), dict(U.keyed(d1, pk))
@@ -71,6 +72,7 @@ def analyze_dml(case, sm):
     regs = tc_events(tr, st["seq_from"], st["seq_to"], "BranchRegister")
     granted = [r for r in regs if r["outcome"] == "ok"]
     kinds = [meta["cols"][i]["kind"] for i in pk]
+    res["sep_key"] = any(v[0] == "s" and any(ch in bytes.fromhex(v[1]).decode("utf-8", "replace") for ch in ",_;:") for k in changed for v in k)
     sent = [k for r in granted for k in parse_key_text(r.get("lock_key") or "", kinds)]
     res["sent"] = len(sent)
     for k in changed:
@@ -92,6 +94,10 @@ def analyze_dml(case, sm):
             img = items[0]["after"] if sm["kind"] in ("insert", "upsert") else items[0]["before"]
             idx = {n.lower(): i for i, n in enumerate(names)}
             rows = [[(idx[c["name"].lower()], U.canon_tv(c["value"])) for c in row if c["name"].lower() in idx] for row in (img or {}).get("rows") or []]
+            rt = row_texts(granted[0].get("lock_key") or "")
+            ikeys = [tuple(typed(dict(r).get(i, ("n",)), kinds[n]) for n, i in enumerate(pk)) for r in rows]
+            if len(rt) == len(ikeys):
+                res["texts"] += list(zip(ikeys, rt))
             res["lcase"] = "{| l_table := %s; l_pk := %s; l_rows := %s; l_changed := %s; l_obs := %s |}" % (
                 coq_hex(table.upper().encode().hex()), coq_list(map(str, pk)), coq_list([irow_term(r) for r in rows]),
                 coq_list([U.coq_vals(list(k)) for k in changed]), coq_hex((granted[0].get("lock_key") or "").encode().hex()))
@@ -104,7 +110,8 @@ def analyze_sfu(case, sm):
     kinds = [meta["cols"][i]["kind"] for i in pk]
     st = U.step_at(tr, sm["path"])
     ms = U.step_at(tr, sm["match_path"])
-    res = {"oracle": [], "scase": None, "pred": sm.get("pred") or "", "class": st["class"]}
+    res = {"oracle": [], "scase": None, "pred": sm.get("pred") or "", "class": st["class"], "texts": []}
+    qtext = None
     matched = [tuple(typed(U.canon_tv(v), kd) for v, kd in zip(row, kinds)) for row in ms.get("rows") or []]
     evs, lockable = [], True
     for e in U.db_events(tr, st["seq_from"], st["seq_to"]):
@@ -122,8 +129,20 @@ def analyze_sfu(case, sm):
             lockable = e["tc"]["outcome"] == "ok"
             ks = parse_key_text(e["tc"].get("lock_key") or "", kinds)
             evs.append("SLockQuery %s %s" % (coq_list([U.coq_vals(list(k)) for k in ks]), coq_bool(lockable)))
+            qtext = e["tc"].get("lock_key") or ""
+            rt = row_texts(qtext)
+            if len(rt) == len(matched):
+                res["texts"] += list(zip(matched, rt))
             if sorted(ks) != sorted(matched):
                 res["oracle"].append("lock query names %s, the locking read matched %s" % (ks, matched))
+    if (meta.get("extra") or {}).get("wrote_first"):
+        # the same rows were written before the locking read: the text their branch registration carries
+        for e in tr["journal"]:
+            if e["src"] == "tc" and e["tc"]["kind"] == "BranchRegister" and e["seq"] > st["seq_to"]:
+                for piece in [x for x in (e["tc"].get("lock_key") or "").split(";") if x]:
+                    rt = row_texts(piece)
+                    if len(rt) == len(matched):
+                        res["texts"] += list(zip(matched, rt))
     got = None
     if st["class"] == "ok":
         got = [tuple(typed(U.canon_tv(row[i]), meta["cols"][i]["kind"]) for i in pk) for row in st.get("rows") or []]
@@ -136,9 +155,17 @@ def analyze_sfu(case, sm):
             res["oracle"].append("select-for-update failed without a lock conflict (%s)" % st.get("err_class"))
         if "SRollbackTo" not in evs:
             res["oracle"].append("lock conflict but no ROLLBACK TO SAVEPOINT / ROLLBACK was issued: local row locks stay")
-    res["scase"] = "{| s_matched := %s; s_lockable := %s; s_journal := %s; s_rows := %s |}" % (
+        ex = meta.get("extra") or {}
+        if ex.get("locks_pre") and not ex.get("wrote_first"):
+            pre = set(U.step_at(tr, ex["locks_pre"]).get("locks") or [])
+            post = set(U.step_at(tr, ex["locks_post"]).get("locks") or [])
+            if post - pre:
+                res["oracle"].append("the refused locking read still holds the row locks it took: %s" % sorted(post - pre))
+    res["scase"] = "{| s_matched := %s; s_lockable := %s; s_journal := %s; s_rows := %s; s_table := %s; s_pk := %s; s_text := %s |}" % (
         coq_list([U.coq_vals(list(k)) for k in matched]), coq_bool(lockable), coq_list(evs),
-        "None" if got is None else "Some %s" % coq_list([U.coq_vals(list(k)) for k in got]))
+        "None" if got is None else "Some %s" % coq_list([U.coq_vals(list(k)) for k in got]),
+        coq_hex(meta["table"].upper().encode().hex()), coq_list(map(str, pk)),
+        "None" if qtext is None or (meta.get("extra") or {}).get("ordered") else "Some " + coq_hex(qtext.encode().hex()))
     return res
 
 
@@ -184,12 +211,22 @@ def parse_key_text_multi(text, kinds):
 
 
 def typed(c, kind):
-    if kind == "int" and c[0] == "s":
+    if kind in ("int", "num") and c[0] == "s":
         try:
-            return ("i", int(bytes.fromhex(c[1]).decode()))
+            t = bytes.fromhex(c[1]).decode()
+            return ("i", int(t)) if kind == "int" else ("f", float(t))
         except ValueError:
             return c
+    if kind == "num" and c[0] == "i":
+        return ("f", float(c[1]))
     return c
+
+
+def row_texts(text):
+    """the row pieces of one 'T:r1,r2' text"""
+    if ":" not in text:
+        return []
+    return [x for x in text.rstrip(";").split(":", 1)[1].split(",") if x != ""]
 
 
 def analyze_iso(case):
@@ -236,6 +273,7 @@ def run(chk, only=None):
         cases = U.replay_atp(chk, only)
     findings = vlib.known_findings("C03")
     preds = {f["pred"] for f in findings}
+    c18_preds = {f["pred"] for f in vlib.known_findings("C18")}
     lrecs, srecs, trecs, nfail, niso, nwritten = [], [], [], 0, 0, 0
     seen = set()
 
@@ -265,12 +303,24 @@ def run(chk, only=None):
             if r["tcase"]:
                 trecs.append((ci, 0, r))
             continue
+        key_texts = {}
         for si, sm in enumerate(c["meta"]["stmts"] or []):
             r = analyze_sfu(c, sm) if sm["kind"] == "sfu" else analyze_dml(c, sm)
-            listed = r["pred"] and r["pred"] in preds
-            c18_listed = r["pred"] in {f["pred"] for f in vlib.known_findings("C18")}
-            if r["oracle"] and not (listed or c18_listed):
-                flag(c, r["oracle"], {"failing_statement": si})
+            if not r["pred"]:
+                for k, t in r.get("texts") or []:
+                    key_texts.setdefault(k, set()).add(t)
+                two = sorted((str(k), sorted(ts)) for k, ts in key_texts.items() if len(ts) > 1)
+                if two and not r["oracle"]:
+                    r["oracle"].append("the same row got different lock key texts from different statement forms: %s" % two[:3])
+                    key_texts = {}
+            bad = r["oracle"]
+            if r["pred"] and (r["pred"] in preds or r["pred"] in c18_preds):
+                # a listed finding explains exactly one kind of failure: a written row no lock key names (or the C18 panic)
+                bad = [m for m in r["oracle"] if not ("no lock key sent names it" in m or m.startswith("the statement panicked"))]
+                if r["pred"] == "lockkey.separator" and not r.get("sep_key"):
+                    bad = r["oracle"]      # the region is: a written row whose string key holds one of , _ ; :
+            if bad:
+                flag(c, bad, {"failing_statement": si})
             if r.get("lcase") and not r["pred"]:
                 lrecs.append((ci, si, r))
             if r.get("scase") and not r["pred"]:
